@@ -20,6 +20,8 @@ def check(chk, thorough=False):
     chk.run('C16.g', 'R-TRUTH', 'the AAD is rebuilt from decoded blocks: decoding keeps every bit of flags and values (= C02.e)', lambda ob: __import__('sa.props.c02', fromlist=['c02e']).c02e(tree, ob), floor=20)
     chk.run('C16.h', 'R-ORDER', 'confidentiality is undone on the reassembled bundle: the security steps of the receive chain come after reassembly (= C12.a)', lambda ob: __import__('sa.props.c12', fromlist=['c12a']).c12a(tree, ob), floor=4)
     chk.run('C16.i', 'R-ITER', 'every confidentiality block of a bundle is verified: the loop over them is not invalidated when an accepted block is removed (= C12.e)', lambda ob: __import__('sa.props.c12', fromlist=['c12e']).c12e(tree, ob), floor=2)
+    chk.run('C16.j', 'R-GUARD', 'a well-formed block with several targets is not refused: result ids are checked per target (= C12.g)', lambda ob: __import__('sa.props.c12', fromlist=['c12g']).c12g(tree, ob), floor=2)
+    chk.run('C16.k', 'R-NOPATH', 'a confidentiality block that cannot be decoded is found (and fails the bundle): every block is indexed under its type code (= C12.j)', lambda ob: __import__('sa.props.c12', fromlist=['c12j']).c12j(tree, ob), floor=2)
     chk.run('C16.d', 'R-FLOW', 'BCB uses the same external AAD construction as BIB (= C03.a/b on apply_bcb)', lambda ob: (c03a(tree, ob, 'apply_bcb'), c03b(tree, ob)), floor=8)
 
 
@@ -65,6 +67,17 @@ def c16a(tree, ob):
         else:
             ob.violate(SEC, fv.qual, src(good)[:60] + ' (parsed payload kept)', 'the ciphertext is stored as block data but a parsed payload stays attached: for a payload block holding an administrative '
                        'record the build step regenerates the data from it, and the record leaves the node in the clear next to the BCB', good)
+        # ... and what the payload class implied stays: scapy forgets the fields a payload overloaded (the block type code of
+        # a block made as CanonicalBlock() / BundleAgeBlock(...)) when the payload is removed; the type code is written into the
+        # block's own fields first, else the target goes on the wire with a null type code and cannot be decrypted
+        for d in [x for x in calls_in(fv.func) if pm('tgt_blk.remove_payload()', x) is not None]:
+            keeps = [x for x in calls_in(fv.func) if pm("tgt_blk.setfieldval('type_code', tgt_blk.getfieldval('type_code'))", x) is not None and fv.dominates(x, d)[0]]
+            keeps += [x for x in walk_local(fv.func) if isinstance(x, ast.Assign) and src(x.targets[0]) in ("tgt_blk.fields['type_code']", 'tgt_blk.type_code') and 'type_code' in src(x.value) and fv.dominates(x, d)[0]]
+            if keeps:
+                ob.site(SEC, d, 'implied type code made explicit before the payload is removed')
+            else:
+                ob.violate(SEC, fv.qual, src(d) + '  (type_code not made explicit first)', 'removing the parsed payload of a target also removes the type code that payload implied: a target built as '
+                           'CanonicalBlock() / <payload class> leaves with block type code null -- a malformed bundle whose AAD was computed with the real type', d)
         # on every path from this construction to the append the replacement happens
         ok, wit = fv.cfg.must_pass(fv.node(stmt), fv.node(app), {fv.node(good)}, include_exc=False)
         blanks = [n for n in walk_local(fv.func) if isinstance(n, ast.Assign) and pm('$m[2]', n.targets[0]) is not None and isinstance(n.value, ast.Constant) and n.value.value is None
